@@ -216,6 +216,57 @@ fn answer(req: &Value) -> Value {
     }
 }
 
+/// Pairs of points a few metres apart on both sides of a border between two countries or time
+/// zones as the library sees them: bisection between two towns known to lie on either side.
+fn borders() -> Value {
+    const TOWNS: [((f64, f64), (f64, f64)); 18] = [
+        ((48.5734, 7.7521), (48.5730, 7.8150)),     // Strasbourg / Kehl
+        ((46.2044, 6.1432), (46.1934, 6.2360)),     // Geneva / Annemasse
+        ((42.3314, -83.0458), (42.3149, -83.0364)), // Detroit / Windsor
+        ((32.7157, -117.1611), (32.5149, -117.0382)), // San Diego / Tijuana
+        ((65.8355, 24.1368), (65.8481, 24.1466)),   // Haparanda / Tornio
+        ((47.5596, 7.5886), (47.5934, 7.6208)),     // Basel / Weil am Rhein
+        ((45.9411, 13.6220), (45.9558, 13.6432)),   // Gorizia / Nova Gorica
+        ((52.3471, 14.5506), (52.3510, 14.5600)),   // Frankfurt (Oder) / Slubice
+        ((31.7619, -106.4850), (31.6904, -106.4245)), // El Paso / Ciudad Juarez
+        ((43.0962, -79.0377), (43.0896, -79.0849)), // Niagara Falls NY / ON
+        ((55.6761, 12.5683), (55.6050, 13.0038)),   // Copenhagen / Malmo
+        ((48.2082, 16.3738), (48.1486, 17.1077)),   // Vienna / Bratislava
+        ((50.6292, 3.0573), (50.8280, 3.2649)),     // Lille / Kortrijk
+        ((42.0282, -8.6450), (42.0470, -8.6440)),   // Valenca / Tui
+        ((54.9966, -7.3086), (54.8320, -7.4830)),   // Derry / Lifford
+        ((1.3521, 103.8198), (1.4927, 103.7414)),   // Singapore / Johor Bahru
+        ((22.3193, 114.1694), (22.5431, 114.0579)), // Hong Kong / Shenzhen
+        ((49.6116, 6.1319), (49.7557, 6.6394)),     // Luxembourg / Trier
+    ];
+    let key = |p: (f64, f64)| -> String {
+        let c = Coordinates::new(p.0, p.1).unwrap();
+        format!("{:?}/{}", Country::try_from_coords(c).map(|c| c.iso_code()), TzLocation::from_coords(c).get_timezone().name())
+    };
+    let mut out = Vec::new();
+    for (a, b) in TOWNS {
+        let (ka, kb) = (key(a), key(b));
+        if ka == kb {
+            continue;
+        }
+        let (mut p, mut q) = (a, b);
+        // invariant: key(p) == ka, key(q) != ka
+        for _ in 0..40 {
+            if (p.0 - q.0).abs() + (p.1 - q.1).abs() < 2e-4 {
+                break;
+            }
+            let m = ((p.0 + q.0) / 2.0, (p.1 + q.1) / 2.0);
+            if key(m) == ka {
+                p = m;
+            } else {
+                q = m;
+            }
+        }
+        out.push(json!({"a": [p.0, p.1], "b": [q.0, q.1], "key_a": ka, "key_b": key(q)}));
+    }
+    json!({"result": out})
+}
+
 pub fn serve() {
     crate::runner::install_panic_hook();
     let stdin = std::io::stdin();
@@ -228,6 +279,8 @@ pub fn serve() {
         let req: Value = serde_json::from_str(&line).unwrap_or(Value::Null);
         let mut resp = if req["op"] == "zones" {
             json!({"result": chrono_tz::TZ_VARIANTS.iter().map(|z| z.name()).collect::<Vec<_>>()})
+        } else if req["op"] == "borders" {
+            borders()
         } else if req["op"] == "countries" {
             json!({"result": Country::ALL.iter().map(|c| c.iso_code()).collect::<Vec<_>>()})
         } else {
